@@ -224,6 +224,13 @@ func (g *gen) genCore(profile string) {
 		}
 	case "C02":
 		cancelP, deadlineP = 0.4, 0.15
+		if g.cfg.NServers >= 2 && g.chance(0.15) {
+			// busy senders: one node is down and the manager dials with a blocking dial and a long
+			// timeout, so that every request to that node keeps its sender busy for a second
+			g.cfg.WithBlock, g.cfg.DialTimeoutMs, g.cfg.FaultFree = true, 1000, false
+			g.cfg.Down = []int{g.r.IntN(g.cfg.NServers)}
+			cancelP, deadlineP = 0.5, 0.3
+		}
 	case "C05":
 		kinds = []string{"qc", "async", "rpc"}
 		cancelP, deadlineP = 0.3, 0.2
